@@ -35,6 +35,16 @@ func relayProfileC02(tier string) RelayProfile {
 // checkC02TsRtsp: the "decodable from the first byte" clauses for HTTP-TS and RTSP consumers: PAT/PMT before any
 // elementary-stream packet, the SDP before any RTP, and - when the stream carries video - a key frame first.
 func checkC02TsRtsp(k *sim.Kernel, rr *RelayRun) {
+	// an RTSP player's headers are its SDP: it must not be the description of a publisher that had already left
+	{
+		accepted := map[int][]*PubState{}
+		for _, p := range rr.Pubs {
+			if p.Actor != nil && p.Actor.Ready && rr.sessionIdOf(p.Actor.Conn.RemoteAddr().String()) != "" {
+				accepted[p.Plan.Stream] = append(accepted[p.Plan.Stream], p)
+			}
+		}
+		checkStaleSdp(k, rr, accepted, "C02.stale-header")
+	}
 	for ci, c := range rr.Cons {
 		if !c.Joined {
 			continue
